@@ -336,9 +336,9 @@ pub fn campaign(check: &Check, target: &str, runs: u64, max_len: usize) {
     // build once (cargo-fuzz: nightly, ASan, debug assertions on), then run the target binary in `jobs` processes that
     // share the corpus directory
     let build = Command::new("cargo")
-        .current_dir(format!("{root}/fuzz"))
+        .current_dir(root)
         .env("CARGO_NET_OFFLINE", "true")
-        .args(["+nightly", "fuzz", "build", "--release", target])
+        .args(["+nightly", "fuzz", "build", "--fuzz-dir", &format!("{root}/fuzz"), "--release", target])
         .output();
     match build {
         Ok(o) if o.status.success() => {}
@@ -355,8 +355,12 @@ pub fn campaign(check: &Check, target: &str, runs: u64, max_len: usize) {
     let bin = format!("{root}/fuzz/target/x86_64-unknown-linux-gnu/release/{target}");
     let mut children = vec![];
     for j in 0..jobs {
-        let child = Command::new(&bin)
+        let child = Command::new("sh")
             .current_dir(format!("{root}/fuzz"))
+            .arg("-c")
+            // the sanitizer runtime reserves terabytes of address space: lift run.sh's (soft) limit for this child
+            .arg("ulimit -S -v unlimited 2>/dev/null; exec \"$0\" \"$@\"")
+            .arg(&bin)
             .arg(&corpus)
             .arg(seed_dir(target))
             .arg(format!("-runs={per_job}"))
